@@ -21,3 +21,16 @@ pub fn iter_skip_all<T, F: Fn(&T) -> bool>(s: &[T], k: usize, f: F) -> (b: bool)
         !b ==> exists|i: int| #![trigger s@[i]] k <= i < s@.len() && f.ensures((&s@[i],), false),
 { unimplemented!() }
 
+
+/// E16: `x[..n].copy_from_slice(y)` / `x[n..].copy_from_slice(y)` — ASSUMED [L-STD] semantics of range
+/// indexing and copy_from_slice; the `requires` are exactly the conditions under which std panics
+#[verifier::external_body]
+pub fn copy_into_prefix(x: &mut Vec<u8>, n: usize, y: &[u8])
+    requires n <= old(x)@.len(), y@.len() == n,
+    ensures final(x)@ == y@ + old(x)@.subrange(n as int, old(x)@.len() as int),
+{ unimplemented!() }
+#[verifier::external_body]
+pub fn copy_into_suffix(x: &mut Vec<u8>, n: usize, y: &[u8])
+    requires n <= old(x)@.len(), y@.len() == old(x)@.len() - n,
+    ensures final(x)@ == old(x)@.subrange(0, n as int) + y@,
+{ unimplemented!() }
